@@ -66,7 +66,7 @@ def gen_world(seed, tier):
     pool["oo2"] = {"type": "dict", "v": oo2}
     so0 = {"threads": rng.choice([1, 2, 4])} if rng.random() < 0.5 else {}
     if rng.random() < 0.4:
-        so0["time_limit"] = rng.choice([50, 200, 3600])
+        so0["time_limit"] = rng.choice([200, 3600])     # far above anything a whole search can need (<= ~10 solves x 10 s)
         if rng.random() < 0.3:
             so0["use_also_custom_timeout"] = True
     pool["so0"] = {"type": "dict", "v": so0}
@@ -339,12 +339,15 @@ def _execute(spec):
                     try:
                         if k == "solve":
                             a = sim.inv
-                            f0 = sum(sim.fired.values())
+                            # only injected faults excuse a difference: running out of the time budget is the library's own
+                            # doing (budgets here are far above what the solves need)
+                            injected = lambda: sum(v for kf, v in sim.fired.items() if kf not in ("budget_exhausted", "alarm_fired"))
+                            f0 = injected()
                             m.solve()
                             st = bool(m.is_solved())
                             ob = canon(m.get_objective_value()) if st else None
                             nr = _summ_solution(op["class"] if "class" in op else I["class"], m.get_solution()) if st else None
-                            I["solves"].append({"solved": st, "objective": ob, "routes": nr, "faulted": sum(sim.fired.values()) > f0, "inv": [a, sim.inv]})
+                            I["solves"].append({"solved": st, "objective": ob, "routes": nr, "faulted": injected() > f0, "inv": [a, sim.inv]})
                             # a re-solve may legitimately deliver another optimum: getters are compared between solves only
                             I["sols"].append(None)
                             I["objs"].append(None)
@@ -367,7 +370,7 @@ def _execute(spec):
                     except Exception as e:
                         I.setdefault("op_exc", []).append([k, type(e).__name__])
                         if k == "solve":
-                            I["solves"].append({"exc": "solve:" + type(e).__name__, "faulted": sum(sim.fired.values()) > f0})
+                            I["solves"].append({"exc": "solve:" + type(e).__name__, "faulted": injected() > f0})
                 check_state(i, op)
     except W.Discard as e:
         return {"discard": str(e)}
